@@ -1,4 +1,5 @@
 SPECIFICATION Spec
+CONSTANT ReaderReportsHunks = TRUE
 INVARIANT Report
 POSTCONDITION Accepted
 CHECK_DEADLOCK FALSE
